@@ -23,13 +23,12 @@ RULE = ("a case = one tree instance (shape, labels, dict insertion order incl. o
         "real TTNS/TTNO instances (SandwichCache with real contractions, TDVP constructor). "
         "non-trivial = distinct instance with >= 3 nodes")
 PARTIAL = [
-    "'walking the update path crosses no edge more than twice' has no theorem (nor has the stronger "
-    "'update path = post-order of the tree re-rooted at its last element'): decided by the oracle only "
-    "(edge-crossing counter over breadth-first paths, exhaustive up to 7 nodes)",
     "the theorems are about the structural model on RTree; its equality with the line-by-line flat port "
     "(dict order, parent pointers, fuel-bounded recursion) and with the code is checked by correspondence "
     "(exhaustively up to 7 nodes, several dict/child orders each), not proved",
     "get_leaves and nearest_neighbours (dict-order dependent) exist only in the flat model: correspondence + oracle",
+    "stronger structural statements of DESIGN section 5 (update path = post-order of the re-rooted tree, "
+    "next_hop_is_new_parent) have no theorem; every clause of the property statement has one",
 ]
 ASSUMPTIONS = ["Python dicts iterate in insertion order; max(d, key=d.get) returns the first maximal key",
                "node identifiers are distinct (enforced by TreeStructure.ensure_uniqueness)"]
